@@ -598,6 +598,46 @@ theorem names_pushTitle {attrs : List (List Char × List Char)} {allowed : List 
   | none => exact h
   | some t => exact names_push h _ _ hn
 
+theorem all_nil {P : Event → Prop} : ∀ e ∈ ([] : List Event), P e := by simp
+
+theorem all_cons {P : Event → Prop} {e : Event} {l : List Event} (h : P e) (hl : ∀ x ∈ l, P x) :
+    ∀ x ∈ e :: l, P x := by
+  intro x hx
+  rcases List.mem_cons.mp hx with rfl | hx
+  · exact h
+  · exact hl x hx
+
+theorem fenceAttrsT_names (lookup : List Char → Option (List Char))
+    {attrs : List (List Char × List Char)} (ha : ∀ nv ∈ attrs, nv.1 = aSourcepos)
+    (info lp : List Char) : ∀ nv ∈ fenceAttrsT lookup attrs info lp, nv.1 ∈ attrsFor tCode := by
+  unfold fenceAttrsT
+  split
+  · exact names_sp ha (by decide)
+  · exact names_push (names_sp ha (by decide)) _ _ (by decide)
+
+theorem olAttrs_names {attrs : List (List Char × List Char)} (ha : ∀ nv ∈ attrs, nv.1 = aSourcepos)
+    (start : Nat) : ∀ nv ∈ olAttrs attrs start, nv.1 ∈ attrsFor tOl := by
+  unfold olAttrs
+  split
+  · exact names_push (names_sp ha (by decide)) _ _ (by decide)
+  · exact names_sp ha (by decide)
+
+theorem linkAttrs_names {attrs : List (List Char × List Char)} (ha : ∀ nv ∈ attrs, nv.1 = aSourcepos)
+    (url : List Char) (title : Option (List Char)) :
+    ∀ nv ∈ linkAttrs attrs url title, nv.1 ∈ attrsFor tA :=
+  names_pushTitle (names_push (names_sp ha (by decide)) _ _ (by decide)) _ (by decide)
+
+theorem autolinkAttrs_names {attrs : List (List Char × List Char)}
+    (ha : ∀ nv ∈ attrs, nv.1 = aSourcepos) (url : List Char) :
+    ∀ nv ∈ attrs ++ [(aHref, url)], nv.1 ∈ attrsFor tA :=
+  names_push (names_sp ha (by decide)) _ _ (by decide)
+
+theorem imageAttrs_names {attrs : List (List Char × List Char)} (ha : ∀ nv ∈ attrs, nv.1 = aSourcepos)
+    (url alt : List Char) (title : Option (List Char)) :
+    ∀ nv ∈ imageAttrs attrs url alt title, nv.1 ∈ attrsFor tImg :=
+  names_pushTitle
+    (names_push (names_push (names_sp ha (by decide)) _ _ (by decide)) _ _ (by decide)) _ (by decide)
+
 theorem frameT_vocab (lookup : List Char → Option (List Char)) (k : Kind)
     (attrs : List (List Char × List Char)) (alt : List Char) (hk : k.isHtml = false)
     (ha : ∀ nv ∈ attrs, nv.1 = aSourcepos) :
@@ -607,81 +647,488 @@ theorem frameT_vocab (lookup : List Char → Option (List Char)) (k : Kind)
   have htx : ∀ s, EventOK shippedVocab (.text s) := fun _ => trivial
   have hcl : ∀ t, t ∈ shippedTags → EventOK shippedVocab (.close t) := fun _ h => h
   have sp : ∀ t, aSourcepos ∈ attrsFor t → ∀ nv ∈ attrs, nv.1 ∈ attrsFor t := fun _ => names_sp ha
-  intro e he
-  cases k with
-  | htmlBlock c => simp [Kind.isHtml] at hk
-  | htmlInline c => simp [Kind.isHtml] at hk
-  | atx level =>
-    have := headingTag_atx_ok level
-    simp only [frameT, List.mem_append, List.mem_cons, List.not_mem_nil, or_false] at he
-    rcases he with (rfl | rfl) | (rfl | rfl)
-    · exact hcr
-    · exact eventOK_open _ _ this.1 (sp _ this.2)
-    · exact hcl _ this.1
-    · exact hcr
-  | setext level =>
-    have := headingTag_setext_ok level
-    simp only [frameT, List.mem_append, List.mem_cons, List.not_mem_nil, or_false] at he
-    rcases he with (rfl | rfl) | (rfl | rfl)
-    · exact hcr
-    · exact eventOK_open _ _ this.1 (sp _ this.2)
-    · exact hcl _ this.1
-    · exact hcr
-  | codeFence info content lp =>
-    simp only [frameT, List.mem_append, List.mem_cons, List.not_mem_nil, or_false] at he
-    rcases he with (rfl | rfl | rfl | rfl | rfl | rfl | rfl) | he
-    · exact hcr
-    · exact eventOK_open _ _ (by decide) (by simp)
-    · refine eventOK_open _ _ (by decide) ?_
-      unfold fenceAttrsT
-      split
-      · exact sp _ (by decide)
-      · exact names_push (sp _ (by decide)) _ _ (by decide)
-    · exact htx _
-    · exact hcl _ (by decide)
-    · exact hcl _ (by decide)
-    · exact hcr
-    · exact absurd he id
-  | orderedList start =>
-    simp only [frameT, List.mem_append, List.mem_cons, List.not_mem_nil, or_false] at he
-    rcases he with (rfl | rfl | rfl) | (rfl | rfl | rfl)
-    · exact hcr
-    · refine eventOK_open _ _ (by decide) ?_
-      unfold olAttrs
-      split
-      · exact names_push (sp _ (by decide)) _ _ (by decide)
-      · exact sp _ (by decide)
-    · exact hcr
-    · exact hcr
-    · exact hcl _ (by decide)
-    · exact hcr
-  | link url title =>
-    simp only [frameT, List.mem_append, List.mem_cons, List.not_mem_nil, or_false] at he
-    rcases he with rfl | rfl
-    · refine eventOK_open _ _ (by decide) ?_
-      exact names_pushTitle (names_push (sp _ (by decide)) _ _ (by decide)) _ (by decide)
-    · exact hcl _ (by decide)
-  | image url title =>
-    simp only [frameT, List.mem_append, List.mem_cons, List.not_mem_nil, or_false] at he
-    subst he
-    refine eventOK_selfClose _ _ (by decide) ?_
-    exact names_pushTitle
-      (names_push (names_push (sp _ (by decide)) _ _ (by decide)) _ _ (by decide)) _ (by decide)
-  | autolink url =>
-    simp only [frameT, List.mem_append, List.mem_cons, List.not_mem_nil, or_false] at he
-    rcases he with rfl | rfl
-    · exact eventOK_open _ _ (by decide) (names_push (sp _ (by decide)) _ _ (by decide))
-    · exact hcl _ (by decide)
-  | _ =>
-    simp only [frameT, List.mem_append, List.mem_cons, List.not_mem_nil, or_false, false_or] at he
-    first
-      | exact absurd he id
-      | (rcases he with rfl | rfl | rfl | rfl | rfl | rfl | rfl | rfl <;>
-          first
-            | exact hcr | exact htx _ | exact hcl _ (by decide)
-            | exact eventOK_open _ _ (by decide) (sp _ (by decide))
-            | exact eventOK_open _ _ (by decide) (by simp)
-            | exact eventOK_selfClose _ _ (by decide) (sp _ (by decide))
-            | exact eventOK_selfClose _ _ (by decide) (by simp))
+  have hno : ∀ t, ∀ nv ∈ ([] : List (List Char × List Char)), nv.1 ∈ attrsFor t := by simp
+  cases k
+  case htmlBlock c => simp [Kind.isHtml] at hk
+  case htmlInline c => simp [Kind.isHtml] at hk
+  all_goals simp only [frameT, List.cons_append, List.nil_append, List.append_nil]
+  all_goals repeat' (first | exact all_nil | refine all_cons ?_ ?_)
+  all_goals first
+    | exact hcr
+    | exact htx _
+    | exact hcl tP (by decide) | exact hcl tBlockquote (by decide) | exact hcl tUl (by decide)
+    | exact hcl tOl (by decide) | exact hcl tLi (by decide) | exact hcl tPre (by decide)
+    | exact hcl tCode (by decide) | exact hcl tEm (by decide) | exact hcl tStrong (by decide)
+    | exact hcl tS (by decide) | exact hcl tA (by decide)
+    | exact hcl _ (headingTag_atx_ok _).1
+    | exact hcl _ (headingTag_setext_ok _).1
+    | exact eventOK_open _ _ (headingTag_atx_ok _).1 (sp _ (headingTag_atx_ok _).2)
+    | exact eventOK_open _ _ (headingTag_setext_ok _).1 (sp _ (headingTag_setext_ok _).2)
+    | exact eventOK_open tPre _ (by decide) (hno _)
+    | exact eventOK_selfClose tBr _ (by decide) (hno _)
+    | exact eventOK_open tCode _ (by decide) (fenceAttrsT_names lookup ha _ _)
+    | exact eventOK_open tOl _ (by decide) (olAttrs_names ha _)
+    | exact eventOK_open tA _ (by decide) (linkAttrs_names ha _ _)
+    | exact eventOK_open tA _ (by decide) (autolinkAttrs_names ha _)
+    | exact eventOK_selfClose tImg _ (by decide) (imageAttrs_names ha _ _ _)
+    | exact eventOK_selfClose tHr _ (by decide) (sp _ (by decide))
+    | exact eventOK_open tP _ (by decide) (sp _ (by decide))
+    | exact eventOK_open tBlockquote _ (by decide) (sp _ (by decide))
+    | exact eventOK_open tUl _ (by decide) (sp _ (by decide))
+    | exact eventOK_open tLi _ (by decide) (sp _ (by decide))
+    | exact eventOK_open tCode _ (by decide) (sp _ (by decide))
+    | exact eventOK_open tEm _ (by decide) (sp _ (by decide))
+    | exact eventOK_open tStrong _ (by decide) (sp _ (by decide))
+    | exact eventOK_open tS _ (by decide) (sp _ (by decide))
+
+/-- **`render_vocab`.** Without html nodes and with `node.attrs` coming from the `sourcepos` plugin
+    only, every trait call names an element of the fixed table and carries only that element's
+    attribute names — whatever the payload strings and attribute values are. -/
+theorem render_vocab (lookup : List Char → Option (List Char)) (t : Node) (hf : HtmlFree t)
+    (ha : AttrsSourcepos t) (evs : List Event) (h : render lookup t = .ok evs) :
+    ∀ e ∈ evs, EventOK shippedVocab e := by
+  refine render_induction lookup
+    (fun m => m.kind.isHtml = false ∧ ∀ nv ∈ m.attrs, nv.1 = aSourcepos)
+    (fun _ evs => ∀ e ∈ evs, EventOK shippedVocab e) (by simp) ?_ ?_ t
+    (fun m hm => ⟨hf m hm, ha m hm⟩) evs h
+  · intro _ a _ b h₁ h₂ e he
+    rcases List.mem_append.mp he with he | he
+    · exact h₁ e he
+    · exact h₂ e he
+  · intro n _ b hq _ hb e he
+    have hfr := frameT_vocab lookup n.kind n.attrs (imageAlt n.children) hq.1 hq.2
+    simp only [List.mem_append] at he hfr
+    rcases he with (he | he) | he
+    · exact hfr e (.inl he)
+    · exact hb e he
+    · exact hfr e (.inr he)
+
+/-! ## 7. `render_balanced` -/
+
+/-- the element names closed by a post-frame -/
+def closesOf : List Event → List (List Char)
+  | [] => []
+  | .close t :: r => t :: closesOf r
+  | _ :: r => closesOf r
+
+theorem frameT_stack (lookup : List Char → Option (List Char)) (k : Kind)
+    (attrs : List (List Char × List Char)) (alt : List Char) :
+    (∀ st, balStack st (frameT lookup k attrs alt).1 =
+      some (closesOf (frameT lookup k attrs alt).2 ++ st)) ∧
+    (∀ st, balStack (closesOf (frameT lookup k attrs alt).2 ++ st) (frameT lookup k attrs alt).2 =
+      some st) := by
+  cases k <;> simp [frameT, balStack, closesOf]
+
+theorem balanced_frame (p s b : List Event) (ts : List (List Char))
+    (hp : ∀ st, balStack st p = some (ts ++ st)) (hs : ∀ st, balStack (ts ++ st) s = some st)
+    (hb : Balanced b) : Balanced (p ++ b ++ s) := by
+  unfold Balanced at *
+  have hb' := balStack_frame [] [] ts b hb
+  simp only [List.nil_append] at hb'
+  have hs' := hs []
+  simp only [List.append_nil] at hs'
+  rw [balStack_append, balStack_append, hp []]
+  simp [hb', hs']
+
+/-- **`render_balanced`.** Whatever a tree renders to is properly nested and completely closed
+    (no hypothesis on the tree beyond rendering without panic). -/
+theorem render_balanced (lookup : List Char → Option (List Char)) (t : Node) (evs : List Event)
+    (h : render lookup t = .ok evs) : Balanced evs := by
+  refine render_induction lookup (fun _ => True) (fun _ evs => Balanced evs) Balanced.nil ?_ ?_ t
+    (fun _ _ => trivial) evs h
+  · intro _ a _ b h₁ h₂; exact h₁.append h₂
+  · intro n _ b _ _ hb
+    have := frameT_stack lookup n.kind n.attrs (imageAlt n.children)
+    exact balanced_frame _ _ b _ this.1 this.2 hb
+
+/-- the statement as asked: for `Renderable` trees there IS a rendering and it is balanced -/
+theorem render_balanced' (lookup : List Char → Option (List Char)) (t : Node) (hr : Renderable t) :
+    ∃ evs, render lookup t = .ok evs ∧ Balanced evs := by
+  obtain ⟨evs, h⟩ := (render_total lookup t).mpr hr
+  exact ⟨evs, h, render_balanced lookup t evs h⟩
+
+def voidTags : List (List Char) := [tHr, tImg, tBr]
+
+/-- which way an event may use an element name -/
+def VoidOK : Event → Prop
+  | .open t _ => t ∉ voidTags
+  | .close t => t ∉ voidTags
+  | .selfClose t _ => t ∈ voidTags
+  | _ => True
+
+theorem heading_tags_not_void : ∀ t ∈ tH1 :: (atxTags ++ setextTags), t ∉ voidTags := by decide
+
+theorem frameT_void (lookup : List Char → Option (List Char)) (k : Kind)
+    (attrs : List (List Char × List Char)) (alt : List Char) :
+    ∀ e ∈ (frameT lookup k attrs alt).1 ++ (frameT lookup k attrs alt).2, VoidOK e := by
+  have hatx : ∀ level, headingTag atxTags level ∉ voidTags := fun level =>
+    heading_tags_not_void _ (by
+      have := headingTag_mem atxTags level
+      simp only [List.mem_cons, List.mem_append] at this ⊢
+      rcases this with h | h
+      · exact .inl h
+      · exact .inr (.inl h))
+  have hset : ∀ level, headingTag setextTags level ∉ voidTags := fun level =>
+    heading_tags_not_void _ (by
+      have := headingTag_mem setextTags level
+      simp only [List.mem_cons, List.mem_append] at this ⊢
+      rcases this with h | h
+      · exact .inl h
+      · exact .inr (.inr h))
+  cases k
+  all_goals simp only [frameT, List.cons_append, List.nil_append, List.append_nil]
+  all_goals repeat' (first | exact all_nil | refine all_cons ?_ ?_)
+  all_goals first
+    | exact trivial
+    | exact hatx _
+    | exact hset _
+    | (show _ ∉ voidTags; decide)
+    | (show _ ∈ voidTags; decide)
+
+/-- **Self-closing only for `hr` / `img` / `br`**, and those three are never opened or closed. -/
+theorem render_void_only (lookup : List Char → Option (List Char)) (t : Node) (evs : List Event)
+    (h : render lookup t = .ok evs) : ∀ e ∈ evs, VoidOK e := by
+  refine render_induction lookup (fun _ => True) (fun _ evs => ∀ e ∈ evs, VoidOK e) (by simp) ?_ ?_ t
+    (fun _ _ => trivial) evs h
+  · intro _ a _ b h₁ h₂ e he
+    rcases List.mem_append.mp he with he | he
+    · exact h₁ e he
+    · exact h₂ e he
+  · intro n _ b _ _ hb e he
+    have hfr := frameT_void lookup n.kind n.attrs (imageAlt n.children)
+    simp only [List.mem_append] at he hfr
+    rcases he with (he | he) | he
+    · exact hfr e (.inl he)
+    · exact hb e he
+    · exact hfr e (.inr he)
+
+/-! ## 8. `safe_output`: C03 at tree level -/
+
+/-- **`safe_output` (C03 for trees).** A tree that renders without panic, has no html node among
+    the rendered ones and whose `attrs` come from the `sourcepos` plugin serialises — in HTML and
+    in XHTML mode, for every payload string — to the flattening of a `WellFormed` piece list over
+    the fixed vocabulary, one piece per trait call.  Hence, on the returned string: every `<` is the
+    first and every `>` the last character of a tag piece of a known element with known attributes,
+    every `"` is an attribute-value quote, every `&` starts one of `&amp; &lt; &gt; &quot;`, tag pieces
+    are properly nested and closed.  No payload can inject an element, an attribute or a quote. -/
+theorem safe_output (lookup : List Char → Option (List Char)) (t : Node) (hr : Renderable t)
+    (hf : HtmlFree t) (ha : AttrsSourcepos t) :
+    ∃ evs, render lookup t = .ok evs ∧ ∀ x : Bool,
+      renderHtml lookup x t = .ok (serialize x evs) ∧
+      ∃ ps, serialize x evs = flattenP ps ∧ ps.length = evs.length ∧ WellFormed shippedVocab ps ∧
+        ((flattenP ps).length = (rolesP ps).length ∧
+          ∀ (i : Nat) (c : Char), (flattenP ps)[i]? = some c →
+            ∃ r, (rolesP ps)[i]? = some r ∧ Agree c r) ∧
+        (∀ i, (flattenP ps)[i]? = some '<' →
+          ∃ pre p post, ps = pre ++ p :: post ∧ p.isTag = true ∧ i = (flattenP pre).length) ∧
+        (∀ i, (flattenP ps)[i]? = some '>' →
+          ∃ pre p post, ps = pre ++ p :: post ∧ p.isTag = true ∧
+            i + 1 = (flattenP pre).length + p.str.length) ∧
+        (∀ i, (flattenP ps)[i]? = some '&' → StartsEntity ((flattenP ps).drop i)) := by
+  obtain ⟨evs, h⟩ := (render_total lookup t).mpr hr
+  refine ⟨evs, h, fun x => ⟨by simp [renderHtml, h], ?_⟩⟩
+  have hv := render_vocab lookup t hf ha evs h
+  have hb := render_balanced lookup t evs h
+  obtain ⟨ps, hser, hlen, hwf⟩ := serialize_wellformed_final shippedVocab x evs hv hb
+  exact ⟨ps, hser, hlen, hwf, delims_exact shippedVocab ps hwf.1,
+    lt_only_in_tags shippedVocab ps hwf.1, gt_only_in_tags shippedVocab ps hwf.1,
+    amp_only_entities shippedVocab ps hwf.1⟩
+
+/-- the headline on the string `Node::render()` / `Node::xrender()` returns -/
+theorem safe_output_lt (lookup : List Char → Option (List Char)) (t : Node) (hr : Renderable t)
+    (hf : HtmlFree t) (ha : AttrsSourcepos t) (x : Bool) :
+    ∃ out ps, renderHtml lookup x t = .ok out ∧ out = flattenP ps ∧ WellFormed shippedVocab ps ∧
+      ∀ i, out[i]? = some '<' →
+        ∃ pre p post, ps = pre ++ p :: post ∧ p.isTag = true ∧ i = (flattenP pre).length := by
+  obtain ⟨evs, _, hx⟩ := safe_output lookup t hr hf ha
+  obtain ⟨hh, ps, hser, _, hwf, _, hlt, _, _⟩ := hx x
+  exact ⟨_, ps, hh, hser, hwf, fun i hi => hlt i (by rw [← hser]; exact hi)⟩
+
+/-! ## 9. order: `render_children_in_order` / `render_deterministic` -/
+
+/-- the events of a result (`[]` for a panic) -/
+def evsOf : Except Panic (List Event) → List Event
+  | .ok e => e
+  | .error _ => []
+
+/-- `fmt.contents`: every child rendered, in order, nothing in between -/
+theorem renderList_ok (lookup : List Char → Option (List Char)) (cs : List Node) (b : List Event)
+    (h : renderList lookup cs = .ok b) :
+    (∀ c ∈ cs, ∃ e, render lookup c = .ok e) ∧
+    b = cs.flatMap (fun c => evsOf (render lookup c)) := by
+  induction cs generalizing b with
+  | nil => simp only [renderList] at h; cases h; simp
+  | cons n r ih =>
+    simp only [renderList] at h
+    split at h
+    · simp at h
+    · rename_i a ha
+      split at h
+      · simp at h
+      · rename_i b' hb'
+        cases h
+        obtain ⟨h1, h2⟩ := ih b' hb'
+        refine ⟨?_, ?_⟩
+        · intro c hc
+          rcases List.mem_cons.mp hc with rfl | hc
+          · exact ⟨a, ha⟩
+          · exact h1 c hc
+        · rw [List.flatMap_cons, ha, ← h2]; rfl
+
+/-- **`render_children_in_order`.** A node that calls `fmt.contents` renders as its own
+    pre-events, then the renderings of ALL its children in order, then its own post-events; a node
+    that does not, as its own events alone.  The frame `frameT` reads only the node's own payload
+    and `attrs` (`frameOf_alt_irrelevant`; `Image` also reads the alt text of its subtree). -/
+theorem render_children_in_order (lookup : List Char → Option (List Char)) (n : Node)
+    (evs : List Event) (h : render lookup n = .ok evs) :
+    (n.kind.isContainer = true →
+      (∀ c ∈ n.children, ∃ e, render lookup c = .ok e) ∧
+      evs = (frameT lookup n.kind n.attrs (imageAlt n.children)).1 ++
+            n.children.flatMap (fun c => evsOf (render lookup c)) ++
+            (frameT lookup n.kind n.attrs (imageAlt n.children)).2) ∧
+    (n.kind.isContainer = false →
+      evs = (frameT lookup n.kind n.attrs (imageAlt n.children)).1 ++
+            (frameT lookup n.kind n.attrs (imageAlt n.children)).2) := by
+  obtain ⟨b, hb, rfl⟩ := render_ok_frameT h
+  unfold bodyOf at hb
+  constructor
+  · intro hc
+    simp only [hc, if_true] at hb
+    obtain ⟨h1, h2⟩ := renderList_ok lookup _ b hb
+    exact ⟨h1, by rw [← h2]⟩
+  · intro hc
+    simp only [hc, Bool.false_eq_true, if_false] at hb
+    cases hb
+    simp
+
+/-- **`render_deterministic`.** The rendering of a node is a function of its kind payload, its
+    `attrs`, the renderings of its children — and, for `Image`, the alt text of its subtree;
+    nothing else (no position, no sibling, no state) enters. -/
+theorem render_deterministic (lookup : List Char → Option (List Char)) (n n' : Node)
+    (hk : n.kind = n'.kind) (ha : n.attrs = n'.attrs)
+    (halt : imageAlt n.children = imageAlt n'.children)
+    (hc : renderList lookup n.children = renderList lookup n'.children) :
+    render lookup n = render lookup n' := by
+  rw [render_frame, render_frame]
+  unfold bodyOf
+  rw [hk, ha, halt, hc]
+
+/-! ## 10. the alt text `Image::render` assembles -/
+
+/-- what the closure of `Image::render` appends for one visited node -/
+def ownAlt : Kind → List Char
+  | .text s => s
+  | .special c => c
+  | .softbreak => ['\n']
+  | .hardbreak => ['\n']
+  | _ => []
+
+mutual
+/-- the walk, written directly on `Node`: the node's own contribution, then its children in order -/
+def altText : Node → List Char
+  | ⟨k, _, cs⟩ => ownAlt k ++ altTextList cs
+def altTextList : List Node → List Char
+  | [] => []
+  | n :: r => altText n ++ altTextList r
+end
+
+theorem displayNode_leafWith (leaf : MdIt.Alt.Inl) (l : List MdIt.Alt.Inl)
+    (hleaf : ∀ k cs, leaf ≠ .wrap k cs) :
+    MdIt.Alt.displayNode (leafWith leaf l) = MdIt.Alt.displayNode leaf ++ MdIt.Alt.display l := by
+  cases l with
+  | nil => simp [leafWith, MdIt.Alt.display]
+  | cons a r =>
+    cases leaf with
+    | wrap k cs => exact absurd rfl (hleaf k cs)
+    | _ => simp [leafWith, MdIt.Alt.displayNode, MdIt.Alt.display]
+
+mutual
+theorem display_toInl (n : Node) : MdIt.Alt.displayNode (toInl n) = altText n := by
+  match n with
+  | ⟨k, a, cs⟩ =>
+    have ih := display_toInlList cs
+    cases k
+    case text s =>
+      rw [toInl, displayNode_leafWith _ _ (by intro _ _ h; cases h), ih]
+      simp [altText, ownAlt, MdIt.Alt.displayNode]
+    case special c =>
+      rw [toInl, displayNode_leafWith _ _ (by intro _ _ h; cases h), ih]
+      simp [altText, ownAlt, MdIt.Alt.displayNode]
+    case softbreak =>
+      rw [toInl, displayNode_leafWith _ _ (by intro _ _ h; cases h), ih]
+      simp [altText, ownAlt, MdIt.Alt.displayNode]
+    case hardbreak =>
+      rw [toInl, displayNode_leafWith _ _ (by intro _ _ h; cases h), ih]
+      simp [altText, ownAlt, MdIt.Alt.displayNode]
+    all_goals simp [toInl, altText, ownAlt, MdIt.Alt.displayNode, ih]
+theorem display_toInlList (cs : List Node) :
+    MdIt.Alt.display (toInlList cs) = altTextList cs := by
+  match cs with
+  | [] => simp [toInlList, MdIt.Alt.display, altTextList]
+  | n :: r =>
+    simp [toInlList, MdIt.Alt.display, altTextList, display_toInl n, display_toInlList r]
+end
+
+/-- **C18 through the real tree type.** The `alt` attribute is what the description displays:
+    all `Text` / `TextSpecial` contents and one `\n` per break of the whole subtree, in document
+    order — whatever kinds (nested images, html, placeholders) sit in between. -/
+theorem image_alt_is_display (cs : List Node) : imageAlt cs = altTextList cs := by
+  unfold imageAlt
+  rw [MdIt.Alt.alt_is_display, display_toInlList]
+
+mutual
+theorem altText_nodes (n : Node) : altText n = (nodes n).flatMap (fun m => ownAlt m.kind) := by
+  match n with
+  | ⟨k, a, cs⟩ => simp [altText, nodes, altTextList_nodes cs]
+theorem altTextList_nodes (cs : List Node) :
+    altTextList cs = (nodesList cs).flatMap (fun m => ownAlt m.kind) := by
+  match cs with
+  | [] => simp [altTextList, nodesList]
+  | n :: r => simp [altTextList, nodesList, altText_nodes n, altTextList_nodes r]
+end
+
+/-- literally the Rust: `node.walk` visits every node below the image in pre-order and the closure
+    appends `ownAlt` of each -/
+theorem image_alt_walk (cs : List Node) :
+    imageAlt cs = (nodesList cs).flatMap (fun m => ownAlt m.kind) := by
+  rw [image_alt_is_display, altTextList_nodes]
+
+/-! ## 11. hypotheses on every node imply the hypotheses on the rendered ones -/
+
+mutual
+theorem visited_subset_nodes (n : Node) : ∀ m ∈ visited n, m ∈ nodes n := by
+  match n with
+  | ⟨k, a, cs⟩ =>
+    intro m hm
+    unfold visited at hm
+    unfold nodes
+    rcases List.mem_cons.mp hm with rfl | hm
+    · simp
+    · by_cases hc : k.isContainer = true
+      · simp only [hc, if_true] at hm
+        exact List.mem_cons_of_mem _ (visitedList_subset_nodesList cs m hm)
+      · simp [hc] at hm
+theorem visitedList_subset_nodesList (cs : List Node) : ∀ m ∈ visitedList cs, m ∈ nodesList cs := by
+  match cs with
+  | [] => simp [visitedList]
+  | n :: r =>
+    intro m hm
+    unfold visitedList at hm
+    unfold nodesList
+    rcases List.mem_append.mp hm with hm | hm
+    · exact List.mem_append_left _ (visited_subset_nodes n m hm)
+    · exact List.mem_append_right _ (visitedList_subset_nodesList r m hm)
+end
+
+/-- the three hypotheses in the plain "every node of the tree" form -/
+theorem hyps_of_all_nodes (t : Node)
+    (hl : ∀ m ∈ nodes t, (∀ l, m.kind = .atx l → 1 ≤ l ∧ l ≤ 6) ∧
+      (∀ l, m.kind = .setext l → 1 ≤ l ∧ l ≤ 2) ∧ m.kind ≠ .placeholder)
+    (hh : ∀ m ∈ nodes t, (∀ c, m.kind ≠ .htmlBlock c) ∧ (∀ c, m.kind ≠ .htmlInline c))
+    (ha : ∀ m ∈ nodes t, ∀ nv ∈ m.attrs, nv.1 = aSourcepos) :
+    Renderable t ∧ HtmlFree t ∧ AttrsSourcepos t := by
+  refine ⟨?_, ?_, ?_⟩
+  · intro m hm
+    exact (Kind.panic?_eq_none_iff _).mpr (hl m (visited_subset_nodes t m hm))
+  · intro m hm
+    have := hh m (visited_subset_nodes t m hm)
+    cases hk : m.kind <;> simp_all [Kind.isHtml]
+  · intro m hm
+    exact ha m (visited_subset_nodes t m hm)
+
+set_option profiler true
+set_option profiler.threshold 1000
+
+/-! ## 12. non-vacuity: every kind once, hostile payloads; and why the hypotheses are needed -/
+
+deriving instance DecidableEq for Except
+
+/-- a one-row entity table: `&quot;` -/
+def lkDemo : List Char → Option (List Char) :=
+  MdIt.Entity.lookupIn [([38, 113, 117, 111, 116, 59], [34])]
+
+def tx (s : String) : Node := ⟨.text s.toList, [], []⟩
+
+/-- Every shipped kind once (the same tree the `noderender` stream builds as `every_kind()`):
+    `"><script>` in a heading, NUL in text, quotes in url / title / alt / info, an escape and a
+    character reference in the fence info behind a no-break space, an html node UNDER an image
+    (never rendered), a `data-sourcepos` attribute. -/
+def docAll : Node :=
+  ⟨.root, [], [
+    ⟨.atx 1, [(aSourcepos, "1:1-1:3".toList)], [tx "\"><script>"]⟩,
+    ⟨.setext 2, [], [tx "a\x00b"]⟩,
+    ⟨.paragraph, [], [
+      ⟨.em, [], [tx "e"]⟩, ⟨.strong, [], [tx "s"]⟩, ⟨.strike, [], [tx "d"]⟩,
+      ⟨.special "<".toList, [], []⟩, ⟨.softbreak, [], []⟩, ⟨.hardbreak, [], []⟩,
+      ⟨.codeInline, [], [tx "<c>"]⟩,
+      ⟨.link "/u\"x".toList (some "t\"<".toList), [], [tx "l"]⟩,
+      ⟨.image "/i".toList (some "\" onerror=\"x".toList), [],
+        [tx "a\"", ⟨.em, [], [tx "<b>"]⟩, ⟨.hardbreak, [], []⟩, ⟨.htmlInline "<i>".toList, [], []⟩]⟩,
+      ⟨.autolink "http://x/?a&b".toList, [], [tx "http://x/?a&b"]⟩]⟩,
+    ⟨.hr, [], []⟩,
+    ⟨.codeBlock "<pre>\n".toList, [], []⟩,
+    ⟨.codeFence " r&quot;\\\"s　t".toList "x\n".toList "language-".toList, [], []⟩,
+    ⟨.blockquote, [], [
+      ⟨.orderedList 7, [], [⟨.listItem, [], [tx "i"]⟩]⟩,
+      ⟨.bulletList, [], [⟨.listItem, [], []⟩]⟩]⟩]⟩
+
+-- the hypotheses of `safe_output` hold for it …
+example : Renderable docAll ∧ HtmlFree docAll ∧ AttrsSourcepos docAll := by decide
+-- … although an html node occurs in the tree (below the image): `HtmlFree` is about rendered nodes
+example : ∃ m ∈ nodes docAll, m.kind.isHtml = true := by decide
+
+-- and this is what it renders to (byte-identical to the Rust `xrender()` / `render()` of that tree)
+example : renderHtml lkDemo true docAll = .ok
+    ("<h1 data-sourcepos=\"1:1-1:3\">&quot;&gt;&lt;script&gt;</h1>\n<h2>a�b</h2>\n" ++
+     "<p><em>e</em><strong>s</strong><s>d</s>&lt;\n<br />\n<code>&lt;c&gt;</code>" ++
+     "<a href=\"/u&quot;x\" title=\"t&quot;&lt;\">l</a>" ++
+     "<img src=\"/i\" alt=\"a&quot;&lt;b&gt;\n\" title=\"&quot; onerror=&quot;x\" />" ++
+     "<a href=\"http://x/?a&amp;b\">http://x/?a&amp;b</a></p>\n<hr />\n" ++
+     "<pre><code>&lt;pre&gt;\n</code></pre>\n" ++
+     "<pre><code class=\"language-r&quot;&quot;s\">x\n</code></pre>\n" ++
+     "<blockquote>\n<ol start=\"7\">\n<li>i</li>\n</ol>\n<ul>\n<li></li>\n</ul>\n</blockquote>\n").toList := by
+  decide +kernel
+
+example : (render lkDemo docAll).toOption.map List.length = some 79 := by decide +kernel
+
+/-- html nodes that ARE rendered -/
+def docHtml : Node :=
+  ⟨.root, [], [⟨.htmlBlock "<div onclick=x>\n".toList, [], []⟩,
+    ⟨.paragraph, [], [tx "a", ⟨.htmlInline "<script>".toList, [], []⟩, ⟨.htmlInline [], [], []⟩]⟩]⟩
+
+example : ¬ HtmlFree docHtml := by decide
+example : render lkDemo docHtml = .ok
+    [.cr, .raw "<div onclick=x>\n".toList, .cr, .cr, .open tP [], .text ['a'],
+     .raw "<script>".toList, .raw [], .close tP, .cr] := by decide +kernel
+example : (render lkDemo docHtml).toOption.map rawsOf =
+    some ["<div onclick=x>\n".toList, "<script>".toList, []] := by decide +kernel
+example : renderHtml lkDemo false docHtml =
+    .ok "<div onclick=x>\n<p>a<script></p>\n".toList := by decide +kernel
+
+-- panics: exact kind, first one in invocation order wins, unrendered subtrees do not matter
+example : render lkDemo ⟨.root, [], [⟨.atx 7, [], []⟩]⟩ = .error .index := by decide
+example : render lkDemo ⟨.root, [], [⟨.atx 0, [], [⟨.placeholder, [], []⟩]⟩]⟩ = .error .index := by
+  decide
+example : render lkDemo ⟨.root, [], [⟨.setext 3, [], []⟩]⟩ = .error .index := by decide
+example : render lkDemo ⟨.root, [], [tx "a", ⟨.placeholder, [], []⟩, ⟨.atx 9, [], []⟩]⟩ =
+    .error .unimplemented := by decide
+example : ¬ Renderable ⟨.root, [], [⟨.paragraph, [], [⟨.placeholder, [], []⟩]⟩]⟩ := by decide
+-- a placeholder under an image or under a text node is never rendered
+example : render lkDemo ⟨.image [] none, [], [⟨.placeholder, [], [tx "x"]⟩]⟩ =
+    .ok [.selfClose tImg [(aSrc, []), (aAlt, ['x'])]] := by decide
+example : Renderable ⟨.text ['a'], [], [⟨.placeholder, [], []⟩]⟩ := by decide
+
+-- fence language: Unicode white space delimits, escapes and references are decoded first
+example : fenceAttrsT lkDemo [] "   a&quot;b\\*\tc".toList ['l', '-'] =
+    [(aClass, "l-a\"b*".toList)] := by decide +kernel
+example : fenceAttrsT lkDemo [] " 　".toList ['l', '-'] = [] := by decide +kernel
+-- ordered list: `start` only when it is not 1
+example : olAttrs [] 1 = [] ∧ olAttrs [] 0 = [(aStart, ['0'])] ∧
+    olAttrs [] 4294967295 = [(aStart, "4294967295".toList)] := by decide +kernel
+
+/-- `AttrsSourcepos` is needed: `node.attrs` names are written after `escape_html` only, which does
+    not stop blanks or `=`.  (They are `&'static str`s chosen by plugins, never input.) -/
+example : renderHtml lkDemo false ⟨.paragraph, [("x onclick=alert(1) y".toList, [])], []⟩ =
+    .ok "<p x onclick=alert(1) y=\"\"></p>\n".toList := by decide +kernel
 
 end MdIt.NodeRender
